@@ -11,8 +11,9 @@ single-step correspondence of harness/c11.py.
 * `prelogon_send_refused`   – sends before the Logon exchange are refused, connection unchanged
 * `prelogon_no_delivery`    – before a Logon has been received nothing is handed to the application
 * `prelogon_first_frame_dropped` – a first frame other than Logon drops the connection
-* `integrity_defect_*`      – per defect class: no delivery, counter unchanged, disconnected, Logout with
-                              the reason exactly when the counterparty is identifiable
+* `integrity_defect_*`      – per defect class: no delivery, counter unchanged, disconnected (no hypothesis on
+                              transport / journal: `disconnect()` completes also when its Logout cannot be
+                              sent); `integrity_defect_logout_sent`: the Logout with the reason, when sendable
 * `after_disconnect_silent` – along ANY history, no frame / message callback / state change / second
                               report between an `on_disconnect` and the next `on_connect`
 * `disconnect_once`         – along ANY history the number of `on_disconnect` calls is the number of
@@ -133,13 +134,38 @@ theorem integrity_defect_unidentifiable (sr : Msg → Bool) (env : Env) (c : Con
   cases hk : c.sock <;> simp [discTail, discReset, raisedOf, hk, st_DISCONNECTED_BROKEN_CONN, st_ACTIVE]
 
 /-- **integrity_defect (identifiable counterparty).**  Wrong BeginString, wrong / swapped CompIDs,
-MsgSeqNum missing, not a number, or too low – received in a state from which `send_msg` accepts a
-Logout (`≥ NETWORK_CONN_ESTABLISHED`), with a transport, CompIDs / reason representable as single
-bytes and the next outbound number free in the journal:
-the frame is not delivered, the inbound counter does not move, exactly one frame is written – a
-Logout whose Text(58) is the reason –, then the socket is closed, the state is
-DISCONNECTED_BROKEN_CONN and `on_disconnect` is called once. -/
+MsgSeqNum missing, not a number, or too low, received in ANY connected state – no hypothesis on the
+transport, the journal or the CompIDs (since `disconnect()` completes also when its Logout cannot be
+sent): the frame is not delivered, the inbound counter does not move, the socket is closed, the state
+is DISCONNECTED_BROKEN_CONN and `on_disconnect` is called exactly once. -/
 theorem integrity_defect_logout (sr : Msg → Bool) (env : Env) (c : Conn) (m : Msg) (text : String)
+    (d : Defect c m (some text)) (hc : isDisc c.state = false) :
+    (recv sr env c m).1.state = st_DISCONNECTED_BROKEN_CONN ∧ (recv sr env c m).1.sock = false ∧
+      (recv sr env c m).1.sess.nextIn = c.sess.nextIn ∧
+      (∀ e ∈ (recv sr env c m).2, ∀ x, e ≠ .deliver x) ∧ nDisc (recv sr env c m).2 = 1 := by
+  obtain ⟨c1, e1, hres, hconn, heff, hin, hpl⟩ :=
+    processMessage_reason_outcome env sr m c text (defect_verdict d) hc
+  unfold recv
+  rw [M.run_eq]
+  have hr : raisedOf (processMessage env sr m c) = [] := by unfold raisedOf; rw [hres]
+  rw [hr, List.append_nil, hconn, heff]
+  refine ⟨rfl, rfl, hin, ?_, ?_⟩
+  · intro e he x hx
+    subst hx
+    rcases List.mem_append.mp he with he | he
+    · have := List.all_eq_true.mp hpl _ he
+      simp [plainUp] at this
+    · simp only [discTail] at he
+      split at he <;> simp at he
+  · rw [nDisc_append, plain_nDisc hpl]
+    simp only [discTail]
+    split <;> simp [nDisc]
+
+/-- **… and the Logout states the reason** when it can be sent: state `≥ NETWORK_CONN_ESTABLISHED` (from
+which `send_msg` accepts a Logout), a transport, CompIDs / reason representable as single bytes and the
+next outbound number free in the journal.  Then exactly one frame is written – a Logout whose Text(58)
+is the reason – under the next outbound number; the inbound journal is untouched. -/
+theorem integrity_defect_logout_sent (sr : Msg → Bool) (env : Env) (c : Conn) (m : Msg) (text : String)
     (d : Defect c m (some text)) (j : Journal)
     (h6 : st_NETWORK_CONN_ESTABLISHED ≤ c.state) (hsock : c.sock = true)
     (hl : frameLatin1 (logoutFrame env c text) = true)
@@ -200,9 +226,14 @@ example (sr : Msg → Bool) (env : Env) (hl : frameLatin1 (logoutFrame env exCon
     (recv sr env exConn exFrame).1.state = st_DISCONNECTED_BROKEN_CONN ∧
       (recv sr env exConn exFrame).1.sess.nextIn = 5 ∧
       writesOf (recv sr env exConn exFrame).2 = [logoutFrame env exConn "MsgSeqNum(34) tag is missing"] := by
-  have h := integrity_defect_logout sr env exConn exFrame _ (.seqMissing ⟨rfl, rfl, rfl⟩ rfl)
+  have h := integrity_defect_logout_sent sr env exConn exFrame _ (.seqMissing ⟨rfl, rfl, rfl⟩ rfl)
     _ (by decide) rfl hl rfl
   exact ⟨h.1, h.2.2.1, h.2.2.2.2.2.2.1⟩
+
+example (sr : Msg → Bool) (env : Env) :
+    (recv sr env exConn exFrame).1.state = st_DISCONNECTED_BROKEN_CONN ∧ nDisc (recv sr env exConn exFrame).2 = 1 := by
+  have h := integrity_defect_logout sr env exConn exFrame _ (.seqMissing ⟨rfl, rfl, rfl⟩ rfl) rfl
+  exact ⟨h.1, h.2.2.2.2⟩
 
 /-! ## after a disconnect: silence -/
 
